@@ -79,6 +79,8 @@ def skeletons(nmin, nmax, history=True, final=True, require=None, max_hist=1):
                 continue
             if require == 'hd-under-orth' and not has_hd_under_orth(t):
                 continue
+            if require == 'wrapped-orth' and not has_wrapped_orth(t):
+                continue
             out.append(t)
     return out
 
@@ -88,6 +90,19 @@ def has_nested_orth(t, under=False):
     if t[0] == 'O' and under:
         return True
     return any(has_nested_orth(c, under or t[0] == 'O') for c in t[1])
+
+
+def has_wrapped_orth(t):
+    """orthogonal root; one region is a compound state holding an orthogonal state next to a basic state (a
+    transition can leave the inner orthogonal state and stay in the region); another region is at least as
+    deep, so that a source in it sorts between two sources of the inner orthogonal state"""
+    if t[0] != 'O':
+        return False
+    for i, r in enumerate(t[1]):
+        if r[0] == 'C' and any(c[0] == 'O' for c in r[1]) and any(c[0] == 'B' for c in r[1]):
+            if any(tree_depth(o) >= 3 for j, o in enumerate(t[1]) if j != i):
+                return True
+    return False
 
 
 def has_hd_under_orth(t, under=False):
